@@ -41,6 +41,10 @@ pub struct WsCase {
     pub buf: u8,
     /// outbound queue capacity selector
     pub capacity: u8,
+    /// assumed peer frame limit: 0 = the default (16 MiB), otherwise 60 000 bytes, so
+    /// that some responses are replaced by the server's own error reply
+    #[serde(default)]
+    pub low_limit: bool,
 }
 
 /// (path, body length, fill byte, queued successfully)
@@ -103,6 +107,8 @@ pub struct Observed {
     pub issued: Vec<(&'static str, usize, u8, bool)>,
     /// did the connection end (server closed) before the peer stopped listening?
     pub ended: bool,
+    /// the server's assumed peer frame limit, if lowered
+    pub limit: Option<usize>,
 }
 
 pub fn observe(c: &WsCase) -> Result<Observed, Fail> {
@@ -125,7 +131,12 @@ pub fn observe(c: &WsCase) -> Result<Observed, Fail> {
     let peers = PeerRegistry::new();
     let capacity = [1usize, 2, 8, 64, 1024][c.capacity as usize % 5];
     let buf = [1usize << 10, 1 << 14, 1 << 16, 1 << 20][c.buf as usize % 4];
-    let shared = WebSocketServer::new(router)
+    let limit: Option<usize> = c.low_limit.then_some(60_000);
+    let mut server = WebSocketServer::new(router);
+    if let Some(l) = limit {
+        server = server.with_limits(repe::WebSocketLimits::default().with_assumed_peer_frame_limit(Some(l)));
+    }
+    let shared = server
         .with_outbound_capacity(capacity)
         // no cap on off-reader handlers: a handler keeps its slot until its response is
         // queued, so a stalled peer could otherwise turn the 17th request into a
@@ -241,6 +252,7 @@ pub fn observe(c: &WsCase) -> Result<Observed, Fail> {
         expected_responses,
         issued,
         ended,
+        limit,
     })
 }
 
@@ -249,6 +261,7 @@ pub fn check(c: &WsCase) -> CheckResult {
         messages,
         expected_responses,
         issued,
+        limit,
         ..
     } = observe(c)?;
     let n_req = expected_responses.len();
@@ -269,6 +282,26 @@ pub fn check(c: &WsCase) -> CheckResult {
         let h = OHeader::raw(m);
         if h.notify == 0 {
             let idx = h.id.wrapping_sub(1) as usize;
+            // a response over the server's assumed peer limit is replaced by the server's
+            // own (whole, well-formed) error reply with the same id
+            if let (Some(l), Some(e)) = (limit, expected_responses.get(idx))
+                && e.len() > l
+            {
+                ensure!(
+                    h.ec != 0 && m.len() <= l,
+                    "ws-frame-content-foreign",
+                    "message {k}: the response to request {} would be {} bytes (limit {l}); what arrived is {} bytes with ec {}",
+                    h.id,
+                    e.len(),
+                    m.len(),
+                    h.ec
+                );
+                if used_resp[idx] {
+                    duplicates += 1;
+                }
+                used_resp[idx] = true;
+                continue;
+            }
             ensure!(
                 idx < expected_responses.len() && *m == expected_responses[idx],
                 "ws-frame-content-foreign",
@@ -323,8 +356,9 @@ pub fn ws_case() -> BoxedStrategy<WsCase> {
         prop_oneof![1 => Just(0u8), 2 => 1u8..60],
         0u8..4,
         0u8..5,
+        prop::bool::weighted(0.3),
     )
-        .prop_map(|(mut reqs, mut broadcasts, stall_ms, buf, capacity)| {
+        .prop_map(|(mut reqs, mut broadcasts, stall_ms, buf, capacity, low_limit)| {
             // bound the volume: at most 5 MiB-sized payloads per case
             let mut big = 0;
             let mut cap = |s: &mut u8| {
@@ -350,6 +384,7 @@ pub fn ws_case() -> BoxedStrategy<WsCase> {
                 stall_ms,
                 buf,
                 capacity,
+                low_limit,
             }
         })
         .boxed()
